@@ -58,11 +58,18 @@ let process (toks : string list) : string =
     let s = int_of_string s in let (v, st) = get_inc s in
     let (st', r) = x_inc_decrypt_finalize v st (bytes_of_hex t) in
     Hashtbl.replace slots s (Inc (v, st')); string_of_int (int_of_z r)
+  | ["NINC"; n] -> hex_of_bytes (x_increment_nonce (bytes_of_hex n))
+  | ["NSETCTR"; c] ->
+    (* decimal up to 2^64-1: parse with two halves to stay within OCaml's 63-bit ints *)
+    let rec n_of_dec s = let len = String.length s in
+      if len <= 15 then n_of_int (int_of_string s)
+      else N.add (N.mul (n_of_dec (String.sub s 0 (len - 15))) (n_of_int 1000000000000000)) (n_of_int (int_of_string (String.sub s (len - 15) 15))) in
+    hex_of_bytes (x_set_counter (n_of_dec c))
   | ["AI"; s; "FREE"] -> Hashtbl.remove slots (int_of_string s); "OK"
   | "TRNG" :: _ -> "OK"
   | ["AI"; s; "NONCE"] ->
     let (_, st) = get_inc (int_of_string s) in hex_of_bytes st.i_nonce
   | _ -> "UNSUPPORTED"
 
-let () = List.iter (fun n -> register n process) ["PERM"; "AE"; "AEM"; "AEC"; "AESPEC"; "AI"]
+let () = List.iter (fun n -> register n process) ["PERM"; "AE"; "AEM"; "AEC"; "AESPEC"; "AI"; "NINC"; "NSETCTR"]
 
